@@ -725,6 +725,76 @@ def fam_concat(rng):
     return Case("concat 1 %d %d %s" % (mergebool, k, " ".join(l.tokens() for l in lays)), check, {"value": arrays})
 
 
+def fam_astype(rng):
+    """C08: values_astype (numbers_to_type) changes no value beyond NumPy's own numeric cast of each leaf (oracle:
+    numpy.astype) and leaves lists, missing values and lengths untouched"""
+    import numpy as np
+    T = gen_pure(rng, rng.randint(0, 2), regular=0.2)
+    vals = [L.gen_value(rng, T) for _ in range(rng.randint(0, 4))]
+    if "nan" in repr(vals) or "inf" in repr(vals):
+        return None
+    lay = L.Enc(rng).encode(vals, T)
+    to = rng.choice(LEAF_ALL)
+    leaf = T
+    while leaf[0] in ("list", "regular", "option"):
+        leaf = leaf[1]
+    frm = leaf[1]
+
+    def cast(v):
+        if v is None:
+            return None
+        if isinstance(v, list):
+            return [cast(e) for e in v]
+        with np.errstate(all="ignore"):
+            return np.array([v], dtype=frm).astype(to).tolist()[0]
+    ref = cast(vals)
+    return Case("numbers_to_type %s %s" % (to, lay.tokens()), expect_value(ref, "values_astype(%r, %s)" % (vals, to)), {"value": vals})
+
+
+def fam_simplify_union(rng):
+    """C08: simplifying a union type (merging its mergeable contents) changes no element's value"""
+    members = [("num", "int64"), ("num", "float64"), ("num", "bool"), ("list", ("num", "int32")), ("list", ("num", "float64")),
+               ("option", ("num", "int64")), ("list", ("list", ("num", "uint8")))]
+    rng.shuffle(members)
+    T = ("union", members[:rng.randint(2, 3)])
+    vals = [L.gen_value(rng, T) for _ in range(rng.randint(0, 6))]
+    lay = L.Enc(rng, allow_indexed=False).encode(vals, T)      # KF-C08-merge-option-with-indexed
+    if not isinstance(lay, L.UN):
+        return None
+    mergebool = rng.random() < 0.5
+    return Case("convert simplify_uniontype 1 %d %s" % (mergebool, lay.tokens()),
+                expect_value(vals, "simplify_uniontype(merge=True, mergebool=%s) of %r" % (mergebool, vals)), {"value": vals})
+
+
+def fam_fields(rng):
+    """C10/C01: projecting one field or a list of fields keeps the records' order and values; a list of fields keeps
+    exactly those fields in the requested order"""
+    k = rng.randint(1, 3)
+    keys = ["x", "y", "z"][:k]
+    leafT = ("record", keys, [gen_pure(rng, rng.randint(0, 1), optlist=0.0) for _ in range(k)])
+    T = leafT
+    for _ in range(rng.randint(0, 2)):
+        T = ("list", T) if rng.random() < 0.7 else ("option", ("list", T))
+    if rng.random() < 0.3:
+        T = ("option", T) if T[0] != "option" else T
+    vals = [L.gen_value(rng, T) for _ in range(rng.randint(0, 4))]
+    lay = L.Enc(rng).encode(vals, T)
+    if rng.random() < 0.5:
+        key = rng.choice(keys)
+        return Case("getitem_field %s %s" % (key, lay.tokens()), expect_value(R.project(vals, key), "x[%r] of %r" % (key, vals), cmp=L.same), {"value": vals})
+    sel = [kk for kk in keys if rng.random() < 0.7] or [keys[0]]
+    rng.shuffle(sel)
+
+    def proj(v):
+        if v is None:
+            return None
+        if isinstance(v, dict):
+            return {kk: v[kk] for kk in sel}
+        return [proj(e) for e in v]
+    return Case("getitem_fields %d %s %s" % (len(sel), " ".join(sel), lay.tokens()),
+                expect_value(proj(vals), "x[%r] of %r" % (sel, vals), cmp=L.same), {"value": vals})
+
+
 def fam_fillna(rng):
     """C09: fill_none replaces exactly the None values at the top level by the given value and changes nothing else;
     is_none (bytemask) is True exactly at the None positions"""
@@ -1260,6 +1330,9 @@ FAMILIES = {
     "rpad": (fam_rpad, ["C09"]),
     "fillna": (fam_fillna, ["C09"]),
     "concat": (fam_concat, ["C08"]),
+    "astype": (fam_astype, ["C08"]),
+    "simplify_union": (fam_simplify_union, ["C08"]),
+    "fields": (fam_fields, ["C01"]),
     "combinations": (fam_combinations, ["C07"]),
     "sort": (fam_sort, ["C06"]),
     "argsort": (fam_argsort, ["C06"]),
